@@ -59,6 +59,15 @@ def generate(rng, tier):
         twin_ops = [scen.cmd("create", "@R/" + a, *fm)] * rng.randint(1, 2) + [{"op": "copy_tree", "src": a, "dst": b, "fault": "history_copied"}]
     ops, info = scen.gen_history_ops(rng, tree, n_gens=rng.randint(1, 4), nested=nested, p_sf=0.15, p_n=0.1,
                                      p_edit=0.15, edit_kinds=("add", "touch"), formats_hi=2)
+    if rng.random() < 0.12:
+        # a create was killed after its manifest was moved into place and before the chain was rewritten; the next create
+        # succeeded: the chain numbering has a gap (1..N-1, N+1) and the manifests chained after the gap are protected
+        # like all others
+        ops.append(dict(scen.cmd("create", "@R", "-h", "md5"), kill={"when": {"kind": "replace", "contains": ".mhl", "nth": 1}, "mode": "after"}))
+        ops.append({"op": "advance", "us": 2_000_000})
+        ops.append(scen.cmd("create", "@R", "-h", rng.choice(["md5", "xxh64"])))
+        if rng.random() < 0.5:
+            ops += [{"op": "advance", "us": 2_000_000}, scen.cmd("create", "@R", "-h", "md5")]
     if rng.random() < 0.15:
         # the last run on the tree was interrupted inside a write: its temporary file is still lying in an ascmhl folder
         # (the history itself is intact); commands that refuse a tampered history must leave that file alone as well
